@@ -358,6 +358,27 @@ def run(program, rep, tier):
               'clear_current / clear_next', line=sw.node.lineno)
 
 
+def closure_plain(outer, inner):
+    """A text normaliser for the generated __init__: free variables bound
+    once in the enclosing function are replaced by what they were bound to,
+    and dict(self.handles) - the visible handles under their names - reads as
+    self.handles."""
+    import re
+    env = {}
+    for n in ast.walk(outer.node):
+        if isinstance(n, ast.Assign) and len(n.targets) == 1 and isinstance(
+                n.targets[0], ast.Name) and not any(
+                    x is n for x in ast.walk(inner)):
+            env.setdefault(n.targets[0].id, []).append(norm(n.value))
+    env = {k: v[0] for k, v in env.items() if len(v) == 1}
+
+    def plain(t):
+        for k, v in env.items():
+            t = re.sub(r'(?<![\w.])' + re.escape(k) + r'\b', v, t)
+        return t.replace('dict(self.handles)', 'self.handles')
+    return plain
+
+
 def check_static_build(program, rep, rule):
     """get_static_map stores the handle objects themselves under their keys
     and lists exactly the handle keys in _handle_names (path based on the
@@ -381,24 +402,41 @@ def check_static_build(program, rep, rule):
     w = Walker(program, _One(program))
     exits = [e for e in w.run(fi, None) if e.kind != 'raise']
     ok_h = ok_n = bool(exits)
+    _plain = closure_plain(f, init)
     for ex in exits:
         tr = ex.state.trace
         items = [e for e in tr if e.kind == 'for-item'
-                 and e.sym.text == 'self.handles.items()']
+                 and _plain(e.sym.text) == 'self.handles.items()']
+        merged = [e for e in tr if e.kind == 'for-item' and _plain(
+            e.sym.text) in ('chain(self.handles.items(), self.maps.items())',
+                            'itertools.chain(self.handles.items(), '
+                            'self.maps.items())')]
         sets = [e.sym.node for e in tr if e.kind == 'call' and isinstance(
             e.sym.node, ast.Call) and norm(e.sym.node.func) in (
                 'object.__setattr__', 'setattr')]
+        conds = {e.sym.text: e.extra for e in tr if e.kind == 'cond'}
         good = False
         for it in items:
             t = it.target.text
             if any([norm(a) for a in c.args] == [sub, f'{t}[0]', f'{t}[1]']
                    for c in sets):
                 good = True
+        for it in merged:
+            # one loop over handles and sub-maps: the value is converted
+            # exactly when it is a ResourceMap (the test __setitem__ files
+            # values by), stored itself otherwise
+            t = it.target.text
+            is_map = conds.get(f'isinstance({t}[1], ResourceMap)')
+            want = [sub, f'{t}[0]', f'{t}[1].get_static_map()'] \
+                if is_map is True else [sub, f'{t}[0]', f'{t}[1]']
+            if is_map is not None and any(
+                    [norm(a) for a in c.args] == want for c in sets):
+                good = True
         if not good:
             ok_h = False
         names = [e for e in tr if e.kind == 'store' and e.target is not None
                  and e.target.text == f'{sub}._handle_names']
-        if len(names) < 1 or norm(names[-1].sym.node) not in (
+        if len(names) < 1 or _plain(norm(names[-1].sym.node)) not in (
                 'frozenset(self.handles.keys())', 'frozenset(self.handles)'):
             ok_n = False
     rep.check(ok_h, rule, site, 'for key, value in self.handles.items(): ...',
